@@ -1,7 +1,8 @@
 (* C12 — the hypotheses of the theorems are satisfiable, and the functions do what the comments say
    on small inputs (vm_compute). *)
 From Verif.Base Require Import Tactics.
-From Verif.C12 Require Import Extracted Model Proofs Proofs2 Proofs3 Proofs4.
+From Verif.C12 Require Import Extracted Model Proofs Proofs2 Proofs3 Proofs4 Proofs5 Proofs6.
+From Verif.C08 Require Model Spec Repack.
 From Verif.C13 Require Extracted Model.
 Local Open Scope N_scope.
 
@@ -56,6 +57,11 @@ Example rewrite_example :
   result_tree t2 (rewrite_tree ex_excl ex_modn [] t2) = [d 1 7 14 []; d 2 5 16 [l 8 1 18]] /\
   map fst (kept ex_excl [] t2) = [[1]; [2]; [2; 8]].
 Proof. vm_compute. split; reflexivity. Qed.
+(* a glob that matches everything, the empty root path included (`!*`): the root itself is not excludable,
+   its entries go one by one, the snapshot gets the empty tree (before the fix: Removed, snapshot unchanged) *)
+Example rewrite_example_everything_excluded :
+  rewrite_tree (fun _ _ => true) ex_modn [] t2 = Changed [].
+Proof. vm_compute. reflexivity. Qed.
 Example rewrite_example_nothing_excluded :
   rewrite_tree (fun _ _ => false) ex_modn [] t2 = Unchanged.
 Proof. vm_compute. reflexivity. Qed.
@@ -72,8 +78,11 @@ Definition ex_readable (t : tree) : bool := negb (tree_eqb t [f 9 5 15 []]).
 Definition t3 : tree := [d 1 7 14 [f 9 5 15 []]; d 2 5 12 [f 7 6 13 [4; 8]; f 8 6 19 [8]]].
 Example repair_example :
   result_tree t3 (repair_tree ex_has ex_mark ex_resize ex_readable t3) =
-  [d 1 7 14 []; d 2 5 12 [f 107 6 13 [8]; f 8 6 19 [8]]].
+  [d 1 7 14 []; d 2 5 12 [f 8 6 19 [8]; f 107 6 13 [8]]].
 Proof. vm_compute. reflexivity. Qed.
+(* the marked file 7 -> 107 moved behind its sibling 8: the changed tree is sorted again.  Without the sort
+   (before fix "TreeModifier keeps a changed tree sorted by name") the tree was [107; 8], and merging such a
+   tree with itself lists names twice (merge_loop_unsorted_duplicates) *)
 Example repair_intact_example :
   intact (fun _ => true) (fun _ => true) t3 = true /\
   repair_tree (fun _ => true) ex_mark ex_resize (fun _ => true) t3 = Unchanged.
@@ -133,3 +142,34 @@ Example copy_partial_closure :
   copy_walk_from_all_snapshot_trees = true /\
   needed ex_tid (reach ex_tid t5) [(Tree, 1)] [t5] = [(Data, 3)].
 Proof. vm_compute. split; reflexivity. Qed.
+
+(* the BinaryHeap transcription on a heap-ordered vector: push three, pop the least *)
+Definition hn (a : N) : hnode := (f a 1 1 [], []).
+Example heap_example :
+  heap_ok (heap_push (heap_push (heap_push [] (hn 5)) (hn 3)) (hn 4)) /\
+  option_map (fun r => n_name (fst (fst r))) (heap_pop (heap_push (heap_push (heap_push [] (hn 5)) (hn 3)) (hn 4))) = Some 3.
+Proof.
+  split; [|vm_compute; reflexivity]. repeat apply heap_push_ok. apply heap_ok_nil.
+Qed.
+
+(* copy_preserves_content: one blob copied out of a two-blob source pack (decoders = identity, destination
+   blob encoding = a 1-byte frame, header encryption = 16 + 16 bytes) *)
+Module E8 := Verif.C08.Model.
+Module ER := Verif.C08.Repack.
+Example copy_preserves_content_hypotheses :
+  let p1 := repeat 1 32 in
+  let sstore := fun p => if E8.bytes_eqb p p1 then Some [10; 11; 12; 13; 14] else None in
+  let es := [ER.mkce p1 (ER.mkloc 2 3 None) (repeat 8 32)] in
+  let denc := fun x => 99 :: x in
+  let enc := fun x => repeat 0 16 ++ x ++ repeat 0 16 in
+  exists out packs,
+    NoDup (map ER.ce_id es) /\
+    ER.repack true sstore (fun d _ => Some d) es = E8.Ok out /\
+    Forall Verif.C08.Spec.wf_op (Proofs6.dest_ops denc (fun _ => None) out [true]) /\
+    E8.packer_run enc E8.Data (Proofs6.dest_ops denc (fun _ => None) out [true]) = E8.Ok packs /\
+    length packs = 1%nat.
+Proof.
+  cbv zeta. eexists. eexists. split; [repeat constructor; intros []|].
+  split; [vm_compute; reflexivity|]. split; [repeat constructor; cbn; lia|].
+  split; [vm_compute; reflexivity | reflexivity].
+Qed.
